@@ -150,6 +150,8 @@ func sysC01(t *testing.T, prop string) {
 		return
 	}
 	killed := map[*proc]bool{}
+	var killedMu sync.Mutex
+	markKilled := func(p *proc) { killedMu.Lock(); killed[p] = true; killedMu.Unlock() }
 	nSessions := 1
 	if prop == "C20" {
 		nSessions = 2
@@ -178,9 +180,9 @@ func sysC01(t *testing.T, prop string) {
 		return
 	}
 	res.Obs("stream_established", 1)
-	faults := []string{"sigkill-active-proxy", "relay-tcp-cut", "sigstop-active-proxy"}
+	faults := []string{"sigkill-active-proxy", "relay-tcp-cut", "sigstop-active-proxy", "kill-next-proxy-on-relay-connect"}
 	if vlib.Thorough() {
-		faults = append(faults, "sigterm-active-proxy", "kill-next-proxy-on-offer", "relay-tcp-cut", "sigkill-all-proxies", "kill-next-proxy-on-answer", "answer-lost", "sigstop-active-proxy", "answer-delayed", "relay-tcp-cut")
+		faults = append(faults, "sigterm-active-proxy", "freeze-next-proxy-on-relay-connect", "kill-next-proxy-on-offer", "relay-tcp-cut", "sigkill-all-proxies", "kill-next-proxy-on-answer", "answer-lost", "sigstop-active-proxy", "answer-delayed", "relay-tcp-cut")
 	}
 	if prop == "C20" {
 		faults = []string{"sigkill-active-proxy", "relay-tcp-cut"}
@@ -192,6 +194,9 @@ func sysC01(t *testing.T, prop string) {
 		s.front.mu.Lock()
 		s.front.onOffer, s.front.onAnswer = nil, nil // traps of the previous fault
 		s.front.mu.Unlock()
+		s.fwd.mu.Lock()
+		s.fwd.onConn = nil
+		s.fwd.mu.Unlock()
 		ap, fc := s.activeProxy()
 		before := s.progress(main)
 		switch f {
@@ -205,10 +210,10 @@ func sysC01(t *testing.T, prop string) {
 			}
 			switch f {
 			case "sigkill-active-proxy":
-				killed[ap] = true
+				markKilled(ap)
 				ap.signal(syscall.SIGKILL)
 			case "sigterm-active-proxy":
-				killed[ap] = true
+				markKilled(ap)
 				ap.signal(syscall.SIGTERM)
 			case "sigstop-active-proxy":
 				ap.signal(syscall.SIGSTOP)
@@ -230,7 +235,7 @@ func sysC01(t *testing.T, prop string) {
 			trap := func(port int) {
 				once.Do(func() {
 					if p := s.procOfLocalPort(port); p != nil {
-						killed[p] = true
+						markKilled(p)
 						p.signal(syscall.SIGKILL)
 						res.Obs("phase_faults_hit_"+fname, 1)
 						go s.startProxy()
@@ -252,7 +257,46 @@ func sysC01(t *testing.T, prop string) {
 				atomic.StoreInt32(&s.front.delayAnswers, 1)
 			}
 			if ap != nil {
-				killed[ap] = true
+				markKilled(ap)
+				ap.signal(syscall.SIGKILL)
+				s.startProxy()
+			} else if fc != nil {
+				fc.cut()
+			}
+			s.startProxy()
+		case "kill-next-proxy-on-relay-connect", "freeze-next-proxy-on-relay-connect":
+			// "before first byte": the carrying proxy is killed; the proxy matched next
+			// has its data channel with the client open and is connecting to the relay
+			// when it dies (or freezes) - it never relays a single byte, and in
+			// particular the client never receives a message from it
+			var once sync.Once
+			fname := f
+			s.fwd.mu.Lock()
+			s.fwd.onConn = func(nc *fwdConn) {
+				once.Do(func() {
+					a, ok := nc.c.RemoteAddr().(*net.TCPAddr)
+					if !ok {
+						return
+					}
+					p := s.procOfLocalPort(a.Port)
+					if p == nil {
+						return
+					}
+					if fname == "kill-next-proxy-on-relay-connect" {
+						markKilled(p)
+						p.signal(syscall.SIGKILL)
+						go s.startProxy()
+					} else {
+						p.signal(syscall.SIGSTOP)
+						go func() { time.Sleep(60 * time.Second); p.signal(syscall.SIGCONT) }()
+					}
+					res.Obs("phase_faults_hit_"+fname, 1)
+					time.Sleep(300 * time.Millisecond) // nothing is forwarded for this connection until the signal has taken effect
+				})
+			}
+			s.fwd.mu.Unlock()
+			if ap != nil {
+				markKilled(ap)
 				ap.signal(syscall.SIGKILL)
 				s.startProxy()
 			} else if fc != nil {
@@ -265,7 +309,7 @@ func sysC01(t *testing.T, prop string) {
 			s.mu.Unlock()
 			for _, p := range ps {
 				if strings.HasPrefix(p.name, "proxy") && p.alive() {
-					killed[p] = true
+					markKilled(p)
 					p.signal(syscall.SIGKILL)
 				}
 			}
@@ -285,7 +329,9 @@ func sysC01(t *testing.T, prop string) {
 			}
 		} else {
 			// decide between a dead system and slowness: a violation only if a snowflake process died or the client stopped polling
+			killedMu.Lock()
 			dead := s.unexpectedExits(killed)
+			killedMu.Unlock()
 			p0 := atomic.LoadInt64(&s.front.clientPolls)
 			time.Sleep(30 * time.Second)
 			p1 := atomic.LoadInt64(&s.front.clientPolls)
@@ -316,9 +362,22 @@ func sysC01(t *testing.T, prop string) {
 	}
 	done := make(chan struct{})
 	go func() { wg.Wait(); close(done) }()
-	select {
-	case <-done:
-	case <-time.After(time.Duration(vlib.Scale(600, 1800)) * time.Second):
+	overall := time.After(time.Duration(vlib.Scale(600, 1800)) * time.Second)
+	lastProgress, lastMove := s.progress(main), time.Now()
+waitDone:
+	for {
+		select {
+		case <-done:
+			break waitDone
+		case <-overall:
+			break waitDone
+		case <-time.After(5 * time.Second):
+			if p := s.progress(main); p != lastProgress {
+				lastProgress, lastMove = p, time.Now()
+			} else if time.Since(lastMove) > 240*time.Second {
+				break waitDone // no byte for 240 s: go and judge the state
+			}
+		}
 	}
 	for _, ss := range sessions {
 		res.Eval(1)
@@ -342,12 +401,39 @@ func sysC01(t *testing.T, prop string) {
 			// an application-visible end while proxies are available
 			res.Violate("c01:session-ended-although-proxies-available", fmt.Sprintf("the SOCKS stream ended with %q after %d/%d up and %d/%d down", ssErr, uv, ss.lenUp, dv, ss.lenDown), rec)
 		} else {
-			res.Inconcl("session did not complete before the watchdog")
+			// not completed: a dead system or slowness? State-based, as after a fault: the
+			// stream has not moved for 240 s and for a further 75 s the client sends no
+			// rendezvous request at all while proxies keep polling the broker. A working
+			// client cannot be in that state: every peer it holds - spares included - is
+			// dropped after 20 s without an inbound message and replaced through a new
+			// rendezvous, so it polls at least every 20 s + 10 s pause unless all its peers
+			// receive data, in which case the stream moves. (An open relay connection
+			// proves nothing here: it may belong to an idle spare peer.) The client holds
+			// on to peers that carry nothing and has stopped looking for working ones
+			c0, q0 := atomic.LoadInt64(&s.front.clientPolls), atomic.LoadInt64(&s.front.polls)
+			open0 := s.fwd.busiest() != nil
+			before := s.progress(ss)
+			time.Sleep(75 * time.Second)
+			c1, q1 := atomic.LoadInt64(&s.front.clientPolls), atomic.LoadInt64(&s.front.polls)
+			killedMu.Lock()
+			dead := s.unexpectedExits(killed)
+			killedMu.Unlock()
+			if c1 == c0 && q1-q0 >= 4 && s.progress(ss) == before && len(dead) == 0 {
+				rec["relay_connection_open"] = open0
+				rec["client_polls_in_75s"] = c1 - c0
+				rec["proxy_polls_in_75s"] = q1 - q0
+				res.Violate("c01:client-gave-up-while-stream-open:after-faults", fmt.Sprintf("the stream stopped at %d/%d up, %d/%d down; it had not moved for 240 s and in a further 75 s the client sent no rendezvous request although proxies polled the broker %d times", uv, ss.lenUp, dv, ss.lenDown, q1-q0), rec)
+			} else {
+				res.Inconcl(fmt.Sprintf("session did not complete before the watchdog (in the last 75 s: %d client polls, %d proxy polls, relay connection open before/after: %v/%v, progress: %v, exited processes: %v)", c1-c0, q1-q0, open0, s.fwd.busiest() != nil, s.progress(ss) != before, dead))
+			}
 		}
 	}
 	res.Obs("relay_connections", atomic.LoadInt64(&s.fwd.total))
 	res.Obs("client_polls", atomic.LoadInt64(&s.front.clientPolls))
-	if dead := s.unexpectedExits(killed); len(dead) > 0 {
+	killedMu.Lock()
+	dead := s.unexpectedExits(killed)
+	killedMu.Unlock()
+	if len(dead) > 0 {
 		res.Violate("sys:process-died", fmt.Sprintf("processes exited on their own: %v; %v", dead, s.panicLines()), map[string]interface{}{"case": "sys-liveness", "panics": s.panicLines()})
 	}
 	if prop == "C20" {
